@@ -50,6 +50,10 @@ Definition items_field (f : fname) : fname := f + 3.     (* kids -> 6, m -> 7, s
 Inductive op :=
 | Observe (k : nat) (r : oid) (g : graph)            (* r.observe(handler k, g) *)
 | Unobserve (k : nat) (r : oid) (g : graph)          (* r.observe(handler k, g, remove=True) *)
+| ObserveAll (k : nat) (r : oid) (gs : list graph)   (* an expression with several graphs ("a | b"; also how the
+                                                        harness presents a FilteredTraitObserver: one named-trait
+                                                        graph per matching trait name) *)
+| UnobserveAll (k : nat) (r : oid) (gs : list graph)
 | SetRef (o : oid) (f : fname) (v : list oid)        (* o.f = None ([]) / an object ([y]) *)
 | SetCont (o : oid) (f : fname) (items : list oid) (dict_equal : bool)
                                                      (* o.f = a new list/dict/set with these items;
@@ -133,10 +137,16 @@ Fixpoint notify_loop (h : heap) (strict : bool) (ns : list kind) (seen : list hk
 Definition change (st : state) (o : oid) (fo : fname) (news removed added : list oid)
            (prevented strict : bool) : state * obs :=
   let h' := upd (st_heap st) o fo news in
-  let '(H', ks, ok) := notify_loop h' strict (on_slot (st_hooks st) o fo) [] removed added (st_hooks st) in
+  let ns := on_slot (st_hooks st) o fo in
+  let '(H1, ks1, ok1) := notify_loop h' strict ns [] removed added (st_hooks st) in
+  (* TraitList / TraitDict / TraitSet.notify iterate the LIVE notifier list (trait_list_object.py l.236,
+     trait_dict_object.py l.154, trait_set_object.py l.128; ctraits.c copies it): notifiers appended to
+     the list of the very container being notified are called with the same event (one more round) *)
+  let extra := if strict && ok1 then skipn (length ns) (on_slot H1 o fo) else [] in
+  let '(H', ks2, ok2) := notify_loop h' strict extra ks1 removed added H1 in
   (mkState h' H' (st_regs st) (st_next st),
-   mkObs (if ok then Ok else Raise NotifierNotFound)
-         (if prevented then [] else map (fun k => (k, o, fo, removed, added)) ks)
+   mkObs (if ok1 && ok2 then Ok else Raise NotifierNotFound)
+         (if prevented then [] else map (fun k => (k, o, fo, removed, added)) (ks1 ++ ks2))
          [(o, fo, news)]).
 
 Fixpoint list_eqb (a b : list nat) : bool :=
@@ -166,6 +176,21 @@ Definition remove_reg (r : reg) (rs : list reg) : list reg :=
 
 Definition quiet (st : state) : state * obs := (st, mkObs Ok [] []).
 
+(* observe.py apply_observers: one add_or_remove_notifiers per graph of the expression; a failing
+   removal undoes the graphs already removed *)
+Definition observe1 (st : state) (k : nat) (r : oid) (g : graph) : state :=
+  mkState (st_heap st) (st_hooks st ++ add_order (st_heap st) (k, r) g r) (st_regs st ++ [((k, r), g)]) (st_next st).
+Definition unobserve1 (st : state) (k : nat) (r : oid) (g : graph) : option state :=
+  match remove_all (rem_order (st_heap st) (k, r) g r) (st_hooks st) with
+  | Some H' => Some (mkState (st_heap st) H' (remove_reg ((k, r), g) (st_regs st)) (st_next st))
+  | None => None
+  end.
+Fixpoint unobserve_all (st : state) (k : nat) (r : oid) (gs : list graph) : option state :=
+  match gs with
+  | [] => Some st
+  | g :: gs' => match unobserve1 st k r g with Some st' => unobserve_all st' k r gs' | None => None end
+  end.
+
 Definition step (st : state) (o : op) : state * obs :=
   let h := st_heap st in
   match o with
@@ -175,6 +200,12 @@ Definition step (st : state) (o : op) : state * obs :=
   | Unobserve k r g =>
       match remove_all (rem_order h (k, r) g r) (st_hooks st) with
       | Some H' => (mkState h H' (remove_reg ((k, r), g) (st_regs st)) (st_next st), mkObs Ok [] [])
+      | None => (st, mkObs (Raise NotifierNotFound) [] [])
+      end
+  | ObserveAll k r gs => (fold_left (fun s g => observe1 s k r g) gs st, mkObs Ok [] [])
+  | UnobserveAll k r gs =>
+      match unobserve_all st k r gs with
+      | Some st' => (st', mkObs Ok [] [])
       | None => (st, mkObs (Raise NotifierNotFound) [] [])
       end
   | SetRef x f v =>
@@ -227,6 +258,12 @@ Definition reg_eqb (a b : reg) : bool := hkey_eqb (fst a) (fst b) && graph_eqb (
 Definition fresh_b (h : heap) (rs : list reg) (c : oid) (fc : fname) : bool :=
   forallb (fun r : reg => negb (visits h (snd r) (snd (fst r)) c fc)) rs.
 
+Fixpoint regs_present (k : nat) (r : oid) (gs : list graph) (rs : list reg) : bool :=
+  match gs with
+  | [] => true
+  | g :: gs' => existsb (reg_eqb ((k, r), g)) rs && regs_present k r gs' (remove_reg ((k, r), g) rs)
+  end.
+
 (* hypotheses under which the theorems speak about one operation: the changed slot is
    edge-acyclic for the live registrations; a removed registration is a live one *)
 Definition op_hyp (st : state) (o : op) : bool :=
@@ -235,6 +272,8 @@ Definition op_hyp (st : state) (o : op) : bool :=
   match o with
   | Observe _ _ _ => true
   | Unobserve k r g => existsb (reg_eqb ((k, r), g)) rs
+  | ObserveAll _ _ _ => true
+  | UnobserveAll k r gs => regs_present k r gs rs
   | SetRef x f v => edge_acyclic_b h rs x f v
   | SetCont x f items _ =>
       let c := st_next st in
@@ -254,7 +293,7 @@ Fixpoint hyps (st : state) (ops : list op) : bool :=
 Definition notified (st : state) (o : op) : option (oid * fname) :=
   let h := st_heap st in
   match o with
-  | Observe _ _ _ | Unobserve _ _ _ | Touch _ _ => None
+  | Observe _ _ _ | Unobserve _ _ _ | ObserveAll _ _ _ | UnobserveAll _ _ _ | Touch _ _ => None
   | SetRef x f v => if list_eqb (h x f) v then None else Some (x, f)
   | SetCont x f items de =>
       let olds := h x f in
